@@ -459,8 +459,11 @@ func (v *VM) run() {
 				} else if highIdx > numElements {
 					highIdx = numElements
 				}
+				// the result is a mutable array: it must not share the
+				// immutable array's storage
 				var val Object = &Array{
-					Value: left.Value[lowIdx:highIdx],
+					Value: append([]Object{},
+						left.Value[lowIdx:highIdx]...),
 				}
 				v.allocs--
 				if v.allocs == 0 {
